@@ -52,8 +52,39 @@ fn wprobe(name: &str) -> usize {
     WPROBES.iter().position(|n| *n == name).unwrap_or_else(|| panic!("harness: unknown probe {}", name))
 }
 
+/// The Writer's buffer size, measured black-box (the library is built as shipped, without its
+/// `verif` feature): the largest piece the sink is offered in one call while a 1 MiB string is
+/// written.  Only used for aiming fill levels at the boundary; no oracle depends on it.  Falls
+/// back to the Reader's size when the answer is implausible (a design that does not chunk).
 pub fn buf_size() -> usize {
-    Writer::VERIF_BUF_SIZE
+    static SIZE: std::sync::OnceLock<usize> = std::sync::OnceLock::new();
+    *SIZE.get_or_init(|| {
+        struct Probe(std::rc::Rc<std::cell::Cell<usize>>);
+        impl std::io::Write for Probe {
+            fn write(&mut self, buf: &[u8]) -> std::io::Result<usize> {
+                self.0.set(self.0.get().max(buf.len()));
+                Ok(buf.len())
+            }
+            fn flush(&mut self) -> std::io::Result<()> {
+                Ok(())
+            }
+        }
+        let seen = std::rc::Rc::new(std::cell::Cell::new(0usize));
+        let probe = Probe(seen.clone());
+        let ok = std::panic::catch_unwind(std::panic::AssertUnwindSafe(move || {
+            let mut w = Writer::new(Box::new(probe));
+            let big = "x".repeat(1 << 20);
+            w.write(&big.as_str());
+            w.flush();
+        }))
+        .is_ok();
+        let n = seen.get();
+        if ok && (64..(1 << 20)).contains(&n) {
+            n
+        } else {
+            crate::rrun::buf_size()
+        }
+    })
 }
 
 // ---------------------------------------------------------------------------------------------
